@@ -97,8 +97,10 @@ class Gen:
             return E("prepremove")
         if x < 0.62:
             return E("close")
-        if x < 0.70:
+        if x < 0.68:
             return E("open")
+        if x < 0.70:
+            return E("openfail")
         if x < 0.75:
             return E("crash")
         if x < 0.79:
@@ -174,6 +176,22 @@ def closefail_cases():
     return out
 
 
+def openfail_cases():
+    """Open whose final metadata write fails (in every state), followed by I/O, gated operations, an attach and a
+    working open: a failed open leaves the replica closed and nothing is served"""
+    out = []
+    pres = [[E("create")],
+            [E("create"), E("open"), E("setmode", mode="RW"), E("write", id=1), E("close")],
+            [E("create"), E("open"), E("setmode", mode="RW"), E("write", id=1), E("snapshot"), E("write", id=2), E("crash")],
+            [E("create"), E("open")], []]
+    tails = [[E("write", id=7), E("read")], [E("setmode", mode="RW"), E("write", id=7)], [E("setrev", v=9), E("prepremove")],
+             [dict(k="attach")], [E("openfail"), E("open"), E("setmode", mode="RW"), E("write", id=7)]]
+    for p in pres:
+        for t in tails:
+            out.append(p + [E("openfail")] + t + [E("open"), E("setmode", mode="RW"), E("write", id=8), E("close")])
+    return out
+
+
 def writefail_cases():
     """a write whose data write fails in the file system (every mode, clean and dirty, before and after good
     writes, followed by reopen / crash): refused, nothing applied, counter (memory and disk) unchanged"""
@@ -217,7 +235,7 @@ MODE = {"RW": "RW", "WO": "WO", "INIT": "INIT", "CLOSED": "CLOSED"}
 STATE = {"initial": "SInitial", "open": "SOpen", "closed": "SClosed", "dirty": "SDirty",
          "rebuilding": "SRebuilding", "error": "SError"}
 ACT = {a: "A" + a[0].upper() + a[1:] for a in ACTIONS}
-ENG = {"closefail": "OCloseFail", "create": "OCreate", "open": "OOpen", "close": "OClose", "crash": "OCrash", "read": "ORead",
+ENG = {"openfail": "OOpenFail", "closefail": "OCloseFail", "create": "OCreate", "open": "OOpen", "close": "OClose", "crash": "OCrash", "read": "ORead",
        "snapshot": "OSnapshot", "remove": "ORemove", "prepremove": "OPrepRemove", "reload": "OReload",
        "revert": "ORevert", "setcheckpoint": "OSetCheckpoint"}
 
